@@ -73,6 +73,10 @@ def run(ctx):
     items_flushed(ctx, facts)
     deferred_error_first(ctx, facts)
     parse_errors(ctx, facts)
+    from rules import C01, C19, C13
+    C01.partial_nonzero(ctx, facts)    # the chunked stream processors (helpers/stream/chunks.rs): a partial chunk never claims zero rows
+    C19.err_adapters(ctx, facts)       # stream adapters over fallible streams hand every inner error on
+    C13.wake_rule(ctx, facts)          # no stream in these modules returns Pending without a registered waker
     ctx.assume("bytes::Bytes::split_to(n) returns the first n bytes and keeps the rest; VecDeque push_back/pop_front are FIFO; Vec::with_capacity(n) reports capacity n for u8 (std's RawVec records the requested capacity)")
     ctx.assume("chunking-independence as an equality over all splittings is not decided; only the disciplines above")
 
